@@ -796,6 +796,14 @@ func (u *Unit) specCall(x *ast.CallExpr, env *Env, sc *specCtx) Value {
 		}
 		u.D.Fun("uf_"+name, rs, ss...)
 		return Value{App("uf_"+name, rs, ts...), rt}
+	case "asslice":
+		// asslice(v): the boxed slice value v as a []interface{} (elements are interface values)
+		v := u.sv(x.Args[0], env, sc)
+		if v.Sort != SVal {
+			unsup("asslice on a non-interface value")
+		}
+		_, un := u.boxFn(SSlice)
+		return Value{App(un, SSlice, v.Term), types.NewSlice(types.NewInterfaceType(nil, nil))}
 	case "regexMatch":
 		// the library's regexp.MatchString as an uninterpreted pair (matches, error)
 		u.D.Fun("regex_match", SBool, SStr, SStr)
